@@ -23,7 +23,7 @@ func checkC11(w *World, tier string) *Report {
 		"R11.2 (E3) every narrowing conversion of an offset (uint64 -> uint8) in saveKey, saveChange and Slot is entailed lossless by the dominating range check, so offsets beyond 31 are refused rather than aliased onto another offset; " +
 		"R11.3 (SSA path rule on AddChild, 'what you index is what you return'): on every path, a node stored into the by-name table childrenIndex on that path is the node returned on that path — only the returned node reaches the flat (slot, offset, type) index through saveKey -> addKey, so a path that indexes one object by name and returns another makes the two look-ups disagree; " +
 		"R11.4 who-may-write: the by-name table, the per-parent slot table, the flat index and the roots are written only by AddChild, addKey, saveKey and saveBalance; " +
-		"R11.5 write-once node tables: every update that stores a storage-key node into a table (roots, per-parent slot table, by-name table, flat index) is dominated by a test that found the entry absent, so a registered node is never replaced and changes journaled through it stay reachable by every look-up."
+		"R11.5 write-once node tables: every update that stores a storage-key node into a table (roots, per-parent slot table, by-name table, flat index) is dominated by a test that found the entry absent, so a registered node is never replaced and changes journaled through it stay reachable by every look-up; R11.6 the parent look-up of a nested registration is computed from the parent's own coordinates (account, parent slot, parent type id, constants) and from none of the child's operands; R11.7 every successful return of saveKey has passed AddChild on the resolved parent and addKey (no shortcut that accepts a registration without linking it under its parent and indexing it), and every successful return of saveChange has passed the journal call; R10.5 (shared) the per-call change list depends only on that call's previous list and the new value."
 	for _, name := range []string{"(*StateChanges).saveKey", "(*StateChanges).saveChange"} {
 		addValidateBeforeMutate(w, r, "R11.1", name)
 	}
@@ -38,6 +38,10 @@ func checkC11(w *World, tier string) *Report {
 	})
 	r.need("R11.4", 8)
 	addWriteOnceRule(w, r, "R11.5")
+	addParentLookupRule(w, r, "R11.6")
+	addRegistrationPathRule(w, r, "R11.7")
+	addNeverFailsRule(w, r, "R11.8")
+	addR105(w, r, "R10.5") // a change journaled for a registered key reaches the record on every path (shared with C10/C13)
 	return r
 }
 
@@ -206,6 +210,33 @@ func addValidateBeforeMutate(w *World, r *Report, rule, name string) {
 				return // the callee never fails: this error return is infeasible
 			}
 		}
+		// the path itself may have established that this error value is nil (`if err != nil { return err }` passed on the false side)
+		for i := 0; i+1 < len(path); i++ {
+			iff, isIf := path[i].Instrs[len(path[i].Instrs)-1].(*ssa.If)
+			if !isIf || len(path[i].Succs) != 2 || path[i].Succs[0] == path[i].Succs[1] {
+				continue
+			}
+			bo, isBo := iff.Cond.(*ssa.BinOp)
+			if !isBo || (bo.Op != token.NEQ && bo.Op != token.EQL) {
+				continue
+			}
+			var tested ssa.Value
+			if k, isK := bo.Y.(*ssa.Const); isK && k.Value == nil {
+				tested = bo.X
+			} else if k, isK := bo.X.(*ssa.Const); isK && k.Value == nil {
+				tested = bo.Y
+			}
+			if tested == nil || resolvePhi(tested, path[:i+1]) != ev {
+				continue
+			}
+			nilSucc := path[i].Succs[1] // NEQ: the false side is the nil side
+			if bo.Op == token.EQL {
+				nilSucc = path[i].Succs[0]
+			}
+			if path[i+1] == nilSucc {
+				return
+			}
+		}
 		for _, b := range path {
 			for _, ins := range b.Instrs {
 				if m := isMutation(ins); m != "" {
@@ -236,15 +267,46 @@ func addValidateBeforeMutate(w *World, r *Report, rule, name string) {
 
 func addConvRule(w *World, r *Report, rule string, names []string) {
 	env := w.rangeEnv()
-	n := 0
+	classOf := w.funcClasses()
+	// the named entry points plus every fork helper they call (a range check factored out into a
+	// helper is the same check)
+	var fns []*ssa.Function
+	seen := map[*ssa.Function]bool{}
+	var visit func(fn *ssa.Function)
+	visit = func(fn *ssa.Function) {
+		if fn == nil || seen[fn] || fn.Blocks == nil || !isForkPkg(fn.Pkg) && fn.Parent() == nil {
+			return
+		}
+		top := fn
+		for top.Parent() != nil {
+			top = top.Parent()
+		}
+		if c, ok := classOf[top]; ok && c == ClsClone {
+			return
+		}
+		seen[fn] = true
+		fns = append(fns, fn)
+		for _, b := range fn.Blocks {
+			for _, ins := range b.Instrs {
+				if ci, ok := ins.(ssa.CallInstruction); ok {
+					visit(ci.Common().StaticCallee())
+				}
+			}
+		}
+	}
 	for _, name := range names {
 		fn := w.Func(forkPath(pkVM), name)
 		if fn == nil {
 			r.undecided(rule, "vm."+name, "-", "function not found")
 			continue
 		}
+		visit(fn)
+	}
+	n := 0
+	for _, fn := range fns {
 		a := env.analyse(fn)
 		k := 0
+		name := strings.TrimPrefix(relName(fn), "vm.")
 		for _, b := range fn.DomPreorder() {
 			for _, ins := range b.Instrs {
 				cv, ok := ins.(*ssa.Convert)
@@ -260,16 +322,20 @@ func addConvRule(w *World, r *Report, rule string, names []string) {
 				n++
 				key := fmt.Sprintf("vm.%s/conv#%d:%s->%s", name, k, cv.X.Type(), cv.Type())
 				src := a.lin(cv.X, b)
-				if a.proves(b, le(konst(lo), src)) && a.proves(b, le(src, konst(hi))) {
-					r.holds(rule, key, w.pos(cv.Pos()), "lossless: "+src.String()+" is entailed to lie in ["+lo.String()+", "+hi.String()+"]")
-				} else {
+				okRead, why := losslessReading(cv.X, b)
+				switch {
+				case !okRead:
+					r.violated(rule, key, w.pos(cv.Pos()), "the converted integer is not a lossless reading of the operand: "+why+" — an operand of 2^64 or more would alias a small offset instead of being refused")
+				case a.proves(b, le(konst(lo), src)) && a.proves(b, le(src, konst(hi))):
+					r.holds(rule, key, w.pos(cv.Pos()), "lossless: "+src.String()+" is entailed to lie in ["+lo.String()+", "+hi.String()+"], read from the operand without dropping upper bits")
+				default:
 					r.violated(rule, key, w.pos(cv.Pos()), "the narrowing conversion may truncate "+src.String()+": an out-of-range offset would alias another offset instead of being refused")
 				}
 			}
 		}
 	}
 	_ = n
-	r.need(rule, 3)
+	r.need(rule, 1)
 }
 
 func addIndexReturnRule(w *World, r *Report, rule string) {
@@ -465,4 +531,196 @@ func addWriteOnceRule(w *World, r *Report, rule string) {
 	}
 	r.need(rule, 4)
 	_ = n
+}
+
+// losslessReading: the integer comes from a 256-bit operand without dropping its upper bits: result 0 of
+// Uint64WithOverflow on a path where the overflow flag was tested false, or Uint64() after IsUint64().
+func losslessReading(v ssa.Value, at *ssa.BasicBlock) (bool, string) {
+	src := v
+	for {
+		if cv, ok := src.(*ssa.Convert); ok {
+			src = cv.X
+			continue
+		}
+		break
+	}
+	dominatedBy := func(cond ssa.Value, wantTrue bool) bool {
+		for _, d := range at.Parent().Blocks {
+			iff, ok := d.Instrs[len(d.Instrs)-1].(*ssa.If)
+			if !ok || iff.Cond != cond || d.Succs[0] == d.Succs[1] {
+				continue
+			}
+			s := d.Succs[1]
+			if wantTrue {
+				s = d.Succs[0]
+			}
+			if len(s.Preds) == 1 && (s == at || s.Dominates(at)) {
+				return true
+			}
+		}
+		return false
+	}
+	switch x := src.(type) {
+	case *ssa.Extract:
+		c, ok := x.Tuple.(*ssa.Call)
+		if !ok || c.Call.StaticCallee() == nil || c.Call.StaticCallee().Name() != "Uint64WithOverflow" || x.Index != 0 {
+			return true, ""
+		}
+		for _, rf := range *c.Referrers() {
+			if ex, ok := rf.(*ssa.Extract); ok && ex.Index == 1 && dominatedBy(ex, false) {
+				return true, ""
+			}
+		}
+		return false, "the overflow flag of Uint64WithOverflow is not tested false on the way here"
+	case *ssa.Call:
+		cal := x.Call.StaticCallee()
+		if cal == nil || cal.Name() != "Uint64" || len(x.Call.Args) != 1 || !isBignumPtr(x.Call.Args[0].Type()) {
+			return true, ""
+		}
+		for _, b := range at.Parent().Blocks {
+			for _, ins := range b.Instrs {
+				if c2, ok := ins.(*ssa.Call); ok && c2.Call.StaticCallee() != nil && c2.Call.StaticCallee().Name() == "IsUint64" && len(c2.Call.Args) == 1 && c2.Call.Args[0] == x.Call.Args[0] && dominatedBy(c2, true) {
+					return true, ""
+				}
+			}
+		}
+		return false, "Uint64() keeps only the low 64 bits of the 256-bit operand and no IsUint64() test dominates it"
+	}
+	return true, ""
+}
+
+
+// ---- R11.6 the parent look-up depends on the parent's coordinates only --------------------------------
+
+// paramRoots: the parameters of fn a value is computed from (data dependence through operands, local
+// cells and call arguments; bounded).
+func paramRoots(v ssa.Value, out map[*ssa.Parameter]bool, seen map[ssa.Value]bool, depth int) {
+	if v == nil || seen[v] || depth == 0 {
+		return
+	}
+	seen[v] = true
+	switch x := v.(type) {
+	case *ssa.Parameter:
+		out[x] = true
+		return
+	case *ssa.Const, *ssa.Global, *ssa.Function:
+		return
+	case *ssa.UnOp:
+		if x.Op == token.MUL {
+			if a, ok := x.X.(*ssa.Alloc); ok {
+				for _, rf := range *a.Referrers() {
+					if st, ok := rf.(*ssa.Store); ok && st.Addr == ssa.Value(a) {
+						paramRoots(st.Val, out, seen, depth-1)
+					}
+				}
+				return
+			}
+		}
+	}
+	if ins, ok := v.(ssa.Instruction); ok {
+		var rands []*ssa.Value
+		for _, op := range ins.Operands(rands) {
+			if *op != nil {
+				paramRoots(*op, out, seen, depth-1)
+			}
+		}
+	}
+}
+
+// addParentLookupRule: in saveKey the look-up of the parent node (the findKey call whose slot argument
+// is computed from the parent-slot parameter) is computed from the parent's coordinates only — the
+// account, the parent slot and the parent type id — and constants; none of the child's operands (its
+// slot, offset, type id, index key) may flow into it: a parent is registered under its own
+// coordinates, whatever the child looks like.
+func addParentLookupRule(w *World, r *Report, rule string) {
+	fn := w.Func(forkPath(pkVM), "(*StateChanges).saveKey")
+	key := "vm.(*StateChanges).saveKey/parent-lookup"
+	if fn == nil || len(fn.Params) != 8 {
+		r.undecided(rule, key, "-", "saveKey(account, parent, self, offset, typeId, parentTypeId, index) not found with that shape: the rule's anchor does not resolve")
+		return
+	}
+	// positions: 0 receiver, 1 account, 2 parent, 3 self, 4 offset, 5 typeId, 6 parentTypeId, 7 index
+	parentSide := map[*ssa.Parameter]bool{fn.Params[0]: true, fn.Params[1]: true, fn.Params[2]: true, fn.Params[6]: true}
+	n := 0
+	for _, b := range fn.Blocks {
+		for _, ins := range b.Instrs {
+			c, ok := ins.(*ssa.Call)
+			if !ok {
+				continue
+			}
+			cal := c.Call.StaticCallee()
+			if cal == nil || cal.Name() != "findKey" || len(c.Call.Args) != 5 {
+				continue
+			}
+			slotRoots := map[*ssa.Parameter]bool{}
+			paramRoots(c.Call.Args[2], slotRoots, map[ssa.Value]bool{}, 10)
+			if !slotRoots[fn.Params[2]] {
+				continue // not the parent look-up
+			}
+			n++
+			var bad []string
+			for i, arg := range c.Call.Args[1:] {
+				roots := map[*ssa.Parameter]bool{}
+				paramRoots(arg, roots, map[ssa.Value]bool{}, 10)
+				for p := range roots {
+					if !parentSide[p] {
+						bad = append(bad, fmt.Sprintf("argument %d of the parent look-up is computed from the child's operand %s", i+1, p.Name()))
+					}
+				}
+			}
+			sort.Strings(bad)
+			if len(bad) > 0 {
+				r.violated(rule, key, w.pos(c.Pos()), strings.Join(bad, "; ")+": a parent registered under its own coordinates is then not found for children whose operand differs")
+			} else {
+				r.holds(rule, key, w.pos(c.Pos()), "computed from the account, the parent slot, the parent type id and constants only")
+			}
+		}
+	}
+	if n == 0 {
+		r.undecided(rule, key, w.pos(fn.Pos()), "no look-up of the parent node found in saveKey")
+	}
+	r.need(rule, 1)
+}
+
+
+// addRegistrationPathRule: every successful path of saveKey links the key under its parent (AddChild)
+// and indexes it (addKey).
+func addRegistrationPathRule(w *World, r *Report, rule string) {
+	fn := w.Func(forkPath(pkVM), "(*StateChanges).saveKey")
+	if fn == nil {
+		r.undecided(rule, "vm.(*StateChanges).saveKey", "-", "function not found")
+		return
+	}
+	for _, callee := range []string{"AddChild", "addKey"} {
+		key := "vm.(*StateChanges).saveKey/always->" + callee
+		leak := mustCallBeforeReturn(fn, func(c ssa.CallInstruction) bool {
+			cal := c.Common().StaticCallee()
+			return cal != nil && cal.Name() == callee && isForkPkg(cal.Pkg)
+		}, nilErrorReturn)
+		if leak != nil {
+			r.violated(rule, key, w.pos(leak.Pos()), "a path returns success without "+callee+": a registration can be accepted without being linked under its parent / indexed (an unknown parent would go unnoticed and the parent's child indices would miss the key)")
+		} else {
+			r.holds(rule, key, w.pos(fn.Pos()), "every successful return passes "+callee)
+		}
+	}
+	r.need(rule, 2)
+}
+
+
+// addNeverFailsRule: linking a key under its parent cannot fail: AddChild's error result is nil on every
+// path (R11.1 relies on it when it skips the propagation of that error as infeasible; and a key-journal
+// instruction with well-formed operands must not halt the frame depending on what was registered before).
+func addNeverFailsRule(w *World, r *Report, rule string) {
+	fn := w.Func(forkPath(pkVM), "(*StorageKey).AddChild")
+	key := "vm.(*StorageKey).AddChild/error-always-nil"
+	if fn == nil {
+		r.undecided(rule, key, "-", "function not found")
+		return
+	}
+	if alwaysNilError(fn) {
+		r.holds(rule, key, w.pos(fn.Pos()), "every return hands back a nil error")
+	} else {
+		r.violated(rule, key, w.pos(fn.Pos()), "AddChild can return an error: a well-formed registration can now be refused (and halt the executing frame) depending on what was registered before — e.g. the same slot described with another type id")
+	}
+	r.need(rule, 1)
 }
